@@ -64,7 +64,10 @@ Inductive ekind :=
 | KNotBoolean       (* The given attribute can not be resolved to a boolean expression *)
 | KCmpTypes         (* Types of right and left side of the comparison dont match *)
 | KArith            (* Right and left side have to be numbers when using arithmetic operators *)
-| KUnknownTask.     (* Unknown Task … *)
+| KUnknownTask      (* Unknown Task … *)
+| KIndexMismatch    (* Attribute … is not an Array / is an Array and needs an index *)
+| KLimitNotNumber   (* The limit of a counting loop has to be a number *)
+| KRecursion.       (* The call of Task … leads back to Task … (recursion is not supported) *)
 
 (* The ANTLR context object handed to print_error (its start token gives the line).
    Structs and tasks are numbered by their position in p_structs / p_tasks (source
@@ -215,6 +218,17 @@ Fixpoint stmt_decls (s : stmt) : list (name * vtype) :=
   | SCond _ p f => flat_map stmt_decls p ++ flat_map stmt_decls f
   end.
 
+(* called_task_names: the names of all tasks called by a statement, at any nesting depth *)
+Fixpoint stmt_calls (s : stmt) : list name :=
+  match s with
+  | SService _ _ _ => []
+  | SCall c => [c_name c]
+  | SParallel cs => map c_name cs
+  | SWhile _ b => flat_map stmt_calls b
+  | SCount _ _ _ b => flat_map stmt_calls b
+  | SCond _ p f => flat_map stmt_calls p ++ flat_map stmt_calls f
+  end.
+
 Record tdef := {
   td_idx : nat;                       (* position in p_tasks *)
   td_name : name;
@@ -253,11 +267,17 @@ Definition visit_env (p : program) : env :=
 
 (* ---- messages printed while visiting ------------------------------------------- *)
 
-Definition arraylen_errs (l : list (name * vtype)) : list err :=
-  flat_map (fun kv => match snd kv with TArray _ (LenVar _) => [(KArrayLen, CNone)] | _ => [] end) l.
+(* initializeArray: the message carries the array's own context (the line of the definition);
+   mk j = context of the j-th definition of the list *)
+Definition arraylen_errs (mk : nat -> ctx) (l : list (name * vtype)) : list err :=
+  flat_map (fun jkv => match snd (snd jkv) with
+                       | TArray _ (LenVar _) => [(KArrayLen, mk (fst jkv))]
+                       | _ => []
+                       end) (index_from 0 l).
 
 Definition outs_visit_errs (ti : nat) (pi : list nat) (outs : outparams) : list err :=
-  arraylen_errs outs ++ map (fun j => (KDupCallOut, CStmtOutParam ti pi j)) (dup_positions [] 0 outs).
+  arraylen_errs (CStmtOutParam ti pi) outs
+  ++ map (fun j => (KDupCallOut, CStmtOutParam ti pi j)) (dup_positions [] 0 outs).
 
 Section VisitErrs.
   Variable ti : nat.
@@ -289,10 +309,12 @@ Section VisitErrs.
 End VisitErrs.
 
 Definition struct_visit_errs (i : nat) (s : structdef) : list err :=
-  arraylen_errs (s_attrs s) ++ map (fun j => (KDupAttr, CStructAttr i j)) (dup_positions [] 0 (s_attrs s)).
+  arraylen_errs (CStructAttr i) (s_attrs s)
+  ++ map (fun j => (KDupAttr, CStructAttr i j)) (dup_positions [] 0 (s_attrs s)).
 
 Definition task_visit_errs (i : nat) (t : task) : list err :=
-  arraylen_errs (t_ins t) ++ map (fun j => (KDupTaskIn, CTaskInParam i j)) (dup_positions [] 0 (t_ins t))
+  arraylen_errs (CTaskInParam i) (t_ins t)
+  ++ map (fun j => (KDupTaskIn, CTaskInParam i j)) (dup_positions [] 0 (t_ins t))
   ++ body_visit_errs i 0 (t_body t).
 
 Definition visit_errs (p : program) : list err :=
@@ -385,14 +407,8 @@ Section Checker.
     | _ => None
     end.
 
-  (* self.structs[t] for a type object t: an Array is unhashable *)
-  Definition struct_of_type (t : vtype) : res sdef :=
-    match t with
-    | TArray _ _ => Exn TypeError
-    | TPlain p => match struct_of_prim p with Some sd => Ok sd | None => Exn KeyError end
-    end.
-
-  (* check_attribute_access, the loop over variable_list[1:] *)
+  (* check_attribute_access, the loop over variable_list[1:]: an index has to follow exactly
+     an array attribute; the type reached before a further element has to be a struct *)
   Fixpoint caa_loop (c : ctx) (pred : sdef) (es : list pelem) : chk :=
     match es with
     | [] => ok_true
@@ -402,23 +418,15 @@ Section Checker.
       | Some ty =>
         match rest with
         | [] => ok_true
-        | PF _ :: _ =>
+        | e2 :: _ =>
+          let continue_with (p : prim) :=
+              match struct_of_prim p with
+              | None => fail1 KNotAStruct c
+              | Some sd => caa_loop c sd rest
+              end in
           match ty with
-          | TArray _ _ => Exn TypeError            (* [Array not in self.structs]: unhashable *)
-          | TPlain p =>
-            match struct_of_prim p with
-            | None => fail1 KNotAStruct c
-            | Some sd => caa_loop c sd rest
-            end
-          end
-        | _ :: _ =>
-          match ty with
-          | TPlain _ => Exn AttributeError         (* 'str' object has no attribute 'type_of_elements' *)
-          | TArray p _ =>
-            match struct_of_prim p with
-            | None => Exn KeyError                 (* self.structs["number"] *)
-            | Some sd => caa_loop c sd rest
-            end
+          | TArray p _ => if is_index e2 then continue_with p else fail1 KIndexMismatch c
+          | TPlain p => if is_index e2 then fail1 KIndexMismatch c else continue_with p
           end
         end
       end
@@ -427,35 +435,44 @@ Section Checker.
 
   Definition check_attribute_access (T : tdef) (c : ctx) (v : name) (es : list pelem) : chk :=
     match assoc v (td_vars T) with
-    | None => fail1 KUnknownVariable c
-    | Some (TArray _ _) => Exn TypeError           (* [task.variables[v] in self.structs] *)
     | Some (TPlain p) =>
       match struct_of_prim p with
       | None => fail1 KUnknownVariable c
       | Some sd => caa_loop c sd es
       end
+    | _ => fail1 KUnknownVariable c       (* undeclared, or not a str (an Array) *)
     end.
 
-  (* helpers.get_type_of_variable_list: var_list = v :: es *)
-  Fixpoint gtvl_loop (cur : sdef) (last : pelem) (es : list pelem) : res vtype :=
+  (* helpers.get_type_of_variable_list: var_list = v :: es; KeyError and TypeError of the
+     lookups are caught and yield None (no type) *)
+  Definition struct_of_type (t : vtype) : option sdef :=
+    match t with
+    | TArray _ _ => None
+    | TPlain p => struct_of_prim p
+    end.
+
+  Fixpoint gtvl_loop (cur : sdef) (last : pelem) (es : list pelem) : option vtype :=
     match es with
-    | [] => match attr_of cur last with Some t => Ok t | None => Exn KeyError end
+    | [] => attr_of cur last
     | e :: rest =>
       match attr_of cur last with
-      | None => Exn KeyError
-      | Some t => rbind (struct_of_type t) (fun sd => gtvl_loop sd e rest)
+      | None => None
+      | Some t => match struct_of_type t with Some sd => gtvl_loop sd e rest | None => None end
       end
     end.
 
-  Definition get_type_of_variable_list (T : tdef) (v : name) (es : list pelem) : res vtype :=
+  Definition get_type_of_variable_list (T : tdef) (v : name) (es : list pelem) : option vtype :=
     match assoc v (td_vars T) with
-    | None => Exn KeyError
+    | None => None
     | Some t =>
-      rbind (struct_of_type t) (fun sd =>
-      match es with
-      | [] => match assoc v (sd_attrs sd) with Some t' => Ok t' | None => Exn KeyError end
-      | e :: rest => gtvl_loop sd e rest
-      end)
+      match struct_of_type t with
+      | None => None
+      | Some sd =>
+        match es with
+        | [] => assoc v (sd_attrs sd)
+        | e :: rest => gtvl_loop sd e rest
+        end
+      end
     end.
 
   (* ---- expressions ----------------------------------------------------------- *)
@@ -465,46 +482,32 @@ Section Checker.
   Definition is_arith (o : binop) : bool :=
     match o with OAdd | OSub | OMul | ODiv => true | _ => false end.
 
-  Definition rand (a : res bool) (b : res bool) : res bool :=
-    rbind a (fun x => if x then b else Ok false).
-
-  (* expression_is_number *)
-  Fixpoint expression_is_number (T : tdef) (e : expr) : res bool :=
+  (* expression_is_number (neither prints nor raises) *)
+  Fixpoint expression_is_number (T : tdef) (e : expr) : bool :=
     match e with
-    | ENum _ | EBool _ => Ok true
-    | EStr _ => Ok false
-    | EPath v p =>
-      rbind (get_type_of_variable_list T v p) (fun t =>
-        Ok (match t with TPlain TNumber => true | _ => false end))
+    | ENum _ | EBool _ => true
+    | EStr _ => false
+    | EPath v p => match get_type_of_variable_list T v p with Some (TPlain TNumber) => true | _ => false end
     | EParen e1 => expression_is_number T e1
-    | EBin _ l r => rand (expression_is_number T l) (expression_is_number T r)
-    | ENot _ => Exn KeyError                        (* expression["left"] on {unOp, value} *)
+    | EBin _ l r => expression_is_number T l && expression_is_number T r
+    | ENot _ => false                                (* len(expression) == 2 *)
     end.
 
   (* expression_is_string *)
-  Definition expression_is_string (T : tdef) (e : expr) : res bool :=
+  Definition expression_is_string (T : tdef) (e : expr) : bool :=
     match e with
-    | EStr _ => Ok true
-    | EPath v p =>
-      rbind (get_type_of_variable_list T v p) (fun t =>
-        Ok (match t with TPlain TString => true | _ => false end))
-    | _ => Ok false
+    | EStr _ => true
+    | EPath v p => match get_type_of_variable_list T v p with Some (TPlain TString) => true | _ => false end
+    | _ => false
     end.
 
   (* check_single_expression on a list *)
   Definition check_single_path (T : tdef) (c : ctx) (v : name) (p : list pelem) : chk :=
     andthen (check_attribute_access T c v p)
       (match get_type_of_variable_list T v p with
-       | Ok (TPlain TNumber) | Ok (TPlain TBoolean) => ok_true
-       | Ok _ => fail1 KNotBoolean c
-       | Fuel => Fuel | Exn k => Exn k | Unsupported => Unsupported
+       | Some (TPlain TNumber) | Some (TPlain TBoolean) => ok_true
+       | _ => fail1 KNotBoolean c
        end).
-
-  Definition lift_bool (r : res bool) (k : bool -> chk) : chk :=
-    match r with
-    | Ok b => k b
-    | Fuel => Fuel | Exn x => Exn x | Unsupported => Unsupported
-    end.
 
   (* check_expression / check_single_expression / check_unary_operation /
      check_binary_operation *)
@@ -516,13 +519,11 @@ Section Checker.
     | EParen e1 => check_expression T c e1
     | EBin o l r =>
       if is_cmp o then
-        lift_bool (rand (expression_is_number T l) (expression_is_number T r)) (fun b1 =>
-        if b1 then ok_true else
-        lift_bool (rand (expression_is_string T l) (expression_is_string T r)) (fun b2 =>
-        if b2 then ok_true else fail1 KCmpTypes c))
+        if expression_is_number T l && expression_is_number T r then ok_true
+        else if expression_is_string T l && expression_is_string T r then ok_true
+        else fail1 KCmpTypes c
       else if is_arith o then
-        lift_bool (rand (expression_is_number T l) (expression_is_number T r)) (fun b1 =>
-        if b1 then ok_true else fail1 KArith c)
+        if expression_is_number T l && expression_is_number T r then ok_true else fail1 KArith c
       else andthen (check_expression T c l) (check_expression T c r)
     end.
 
@@ -537,7 +538,7 @@ Section Checker.
     | TStructName _ =>
       match v with
       | PVStruct _ => match nm with Some n => prim_eqb n ty | None => false end
-      | _ => true
+      | _ => match struct_of_prim ty with Some _ => false | None => true end   (* value_type in self.structs *)
       end
     end.
 
@@ -568,12 +569,19 @@ Section Checker.
       | Some sd' =>
         match v with
         | PVStruct fs =>
-          (* for identifier in attribute.attributes: check_for_wrong_attribute_type_in_struct *)
-          (fix go (l : list (name * pv)) : chk :=
-             match l with
-             | [] => ok_true
-             | (id', v') :: r => band (check_attr_type jctx jctx sd' id' v') (go r)
-             end) fs
+          (* struct_correct = check_for_missing_attribute_in_struct(attribute, struct_def);
+             for identifier in attribute.attributes: unknown-attribute test and
+             check_for_wrong_attribute_type_in_struct *)
+          band (check_missing jctx (sd_attrs sd') fs)
+            ((fix go (l : list (name * pv)) : chk :=
+                match l with
+                | [] => ok_true
+                | (id', v') :: r =>
+                  band (if has_key id' (sd_attrs sd')
+                        then check_attr_type jctx jctx sd' id' v'
+                        else fail1 KUnknownAttrInLit jctx)
+                       (go r)
+                end) fs)
         | _ => fail1 KWrongTypeStruct ictx
         end
       | None =>
@@ -715,7 +723,11 @@ Section Checker.
       match assoc v (td_vars T) with
       | None => Exn KeyError
       | Some t =>
-        match struct_of_type t with
+        (* self.structs[<type object>]: an Array is unhashable, a primitive is no key *)
+        match (match t with
+               | TArray _ _ => Exn TypeError
+               | TPlain p0 => match struct_of_prim p0 with Some sd => Ok sd | None => Exn KeyError end
+               end) with
         | Ok sd0 =>
           match ipm_walk sd0 es with
           | Ok cur =>
@@ -764,12 +776,39 @@ Section Checker.
                         (call_outs (c_outs c)) (td_outs called)))
     end.
 
+  (* called_task_names / task_reaches: can the task [target] be reached from the task [n] by
+     task calls (through defined tasks)?  The code runs a depth-first search with a visited
+     set; the model bounds the depth by the number of tasks, which decides the same relation. *)
+  Definition calls_of_task (n : name) : list name :=
+    match find_tdef n with
+    | Some t => flat_map stmt_calls (td_body t)
+    | None => []
+    end.
+
+  Fixpoint task_reaches (fuel : nat) (n target : name) : bool :=
+    has_key n (e_tasks E) &&
+    (Nat.eqb n target ||
+     match fuel with
+     | O => false
+     | S f => existsb (fun m => task_reaches f m target) (calls_of_task n)
+     end).
+
   (* check_task_call (with check_if_task_in_taskcall_exists) *)
   Definition check_task_call (T : tdef) (ti : nat) (pi : list nat) (c : call) : chk :=
     if has_key (c_name c) (e_tasks E) then
-      andthen (check_call_parameters T ti pi (c_ins c) (c_outs c))
-              (check_call_matches T ti pi c)
+      if task_reaches (length (e_tasks E)) (c_name c) (td_name T) then fail1 KRecursion (CStmt ti pi)
+      else andthen (check_call_parameters T ti pi (c_ins c) (c_outs c))
+                   (check_call_matches T ti pi c)
     else fail1 KUnknownTask (CStmt ti pi).
+
+  (* the limit part of check_counting_loop *)
+  Definition check_limit (T : tdef) (c : ctx) (lim : limit) : chk :=
+    match lim with
+    | LimInt _ => ok_true
+    | LimPath v es =>
+      andthen (check_attribute_access T c v es)
+              (if expression_is_number T (EPath v es) then ok_true else fail1 KLimitNotNumber c)
+    end.
 
   (* ---- statements ---------------------------------------------------------------- *)
 
@@ -792,11 +831,15 @@ Section Checker.
       | SWhile e body =>
         band (forall_from (fun i s1 => check_stmt (pi ++ [i]) s1) 0 body)
              (check_expression T (CStmt ti pi) e)
-      | SCount true _ _ body =>
-        (* nothing below a parallel loop is looked at; the limit is never looked at *)
-        if is_single_call body then ok_true else fail1 KParLoop (CStmt ti pi)
-      | SCount false _ _ body =>
-        forall_from (fun i s1 => check_stmt (pi ++ [i]) s1) 0 body
+      | SCount true _ lim body =>
+        band (check_limit T (CStmt ti pi) lim)
+             (match body with
+              | [SCall c] => check_task_call T ti (pi ++ [0]) c
+              | _ => fail1 KParLoop (CStmt ti pi)
+              end)
+      | SCount false _ lim body =>
+        band (check_limit T (CStmt ti pi) lim)
+             (forall_from (fun i s1 => check_stmt (pi ++ [i]) s1) 0 body)
       | SCond e p f =>
         band (forall_from (fun i s1 => check_stmt (pi ++ [0; i]) s1) 0 p)
           (band (forall_from (fun i s1 => check_stmt (pi ++ [1; i]) s1) 0 f)
